@@ -3,6 +3,7 @@ package checks
 import (
 	"time"
 
+	"github.com/glebziz/fs_db/verifh/conc"
 	"github.com/glebziz/fs_db/verifh/enum"
 	_ "github.com/glebziz/fs_db/verifh/grpch"
 	"github.com/glebziz/fs_db/verifh/hk"
@@ -96,6 +97,40 @@ func seqEnumCheck(id, tier string, quick, thorough time.Duration, plans []seq.Pl
 	if n, ok := cov["traces_validated_against_impl"].(int64); ok {
 		cov["traces_validated_against_impl"] = n + es.Cases
 	}
+	if items := extraConc[id]; len(items) > 0 {
+		// concurrent programs of the property (schedule explorer), under the same reporter and budget
+		pool, err := conc.NewPool(0)
+		if err != nil {
+			return 3
+		}
+		defer pool.Close()
+		b := 2
+		if tier == "thorough" {
+			b = 3
+		}
+		var its []conc.Item
+		for _, p := range items {
+			its = append(its, conc.Item{Name: "db", Params: p.src, MaxBound: b, MaxExecs: 3_000_000, Label: id + "/" + p.name})
+		}
+		cs := conc.RunItems(rp, pool, its, budget, verbose())
+		cov["concurrent_executions"] = cs.Execs
+		cov["concurrent_completed_bound"] = cs.Completed
+		if ex, ok := cov["exhaustive"].(bool); ok {
+			cov["exhaustive"] = ex && cs.AllComplete
+		}
+	}
 	ev := &hk.Evidence{PropertyID: id, Tier: tier, Level: "model_checking", Coverage: cov, Assumptions: assumptions}
 	return finish(rp, ev, budget)
+}
+
+// extraConc: concurrent client programs run by seqEnumCheck next to the sequential plans.
+var extraConc = map[string][]prog{
+	// C05: whatever state concurrent clients leave behind is the state the next process finds
+	"C05": {
+		{"two-writers-then-restart", "I:Sa|Sa|Sa;reopen=1"},
+		{"rc-commit-vs-write-then-restart", "I:Sa|b01.s0a.c0|Sa;reopen=1"},
+		{"delete-vs-write-then-restart", "I:Sa|Da|Sa;reopen=1"},
+		{"snapshot-commit-ab-vs-writes-then-restart", "I:Sa.Sb|b02.s0a.s0b.c0|Sa.Sb;reopen=1"},
+		{"write-vs-gc-then-restart", "I:Sa|Sa|X;reopen=1"},
+	},
 }
